@@ -60,12 +60,22 @@ pub fn angle_in_direction(radians0: f64, radians1: f64, angle_dir: AngleDir) -> 
     let t1 = angle_signed_pi(radians1);
     match angle_dir {
         AngleDir::Cw => {
-            let t1 = if t1 > t0 { t1 - 2.0 * PI } else { t1 };
-            t0 - t1
+            // Take the difference first and add the full turn to the (small) negative result, so that
+            // rounding can never push the directed angle above 2*PI
+            let d = t0 - t1;
+            if d < 0.0 {
+                d + 2.0 * PI
+            } else {
+                d
+            }
         }
         AngleDir::Ccw => {
-            let t1 = if t1 < t0 { t1 + 2.0 * PI } else { t1 };
-            t1 - t0
+            let d = t1 - t0;
+            if d < 0.0 {
+                d + 2.0 * PI
+            } else {
+                d
+            }
         }
     }
 }
